@@ -1304,15 +1304,28 @@ where
     }
 
     fn visit_mut_expr(&mut self, expr: &mut Expr) {
+        // only `x = <JSX/>` itself may see `x` as the assignment target
+        let is_jsx_assignment = match expr {
+            Expr::Assign(AssignExpr {
+                left: AssignTarget::Simple(SimpleAssignTarget::Ident(binding_ident)),
+                right,
+                ..
+            }) if right.is_jsx_element() => {
+                self.assignment_left = Some(binding_ident.id.clone());
+                true
+            }
+            _ => false,
+        };
+
         expr.visit_mut_children_with(self);
+
+        if is_jsx_assignment {
+            self.assignment_left = None;
+        }
 
         match expr {
             Expr::JSXElement(jsx_element) => *expr = self.transform_jsx_element(jsx_element),
             Expr::JSXFragment(jsx_fragment) => *expr = self.transform_jsx_fragment(jsx_fragment),
-            Expr::Assign(AssignExpr {
-                left: AssignTarget::Simple(SimpleAssignTarget::Ident(binding_ident)),
-                ..
-            }) => self.assignment_left = Some(binding_ident.id.clone()),
             _ => {}
         }
     }
